@@ -7,7 +7,9 @@ mod fam_curve;
 mod fam_fx;
 mod fam_integr;
 mod fam_panic;
+mod fam_tokenfee;
 mod mon;
+mod mon_c03;
 mod mon_c15;
 mod mon_c17;
 mod mon_c18;
@@ -50,6 +52,7 @@ fn main() {
                 "bank" => fam_bank::gen_bank_ops(&mut rng, n, &mut out),
                 "curve" => fam_curve::gen(&mut rng, n, &mut out),
                 "integr" => fam_integr::gen(&mut rng, n, &mut out),
+                "tokenfee" => fam_tokenfee::gen(&mut rng, n, &mut out),
                 "panic" => fam_panic::gen(&mut rng, n, &mut out),
                 _ => {
                     eprintln!("unknown family {}", fam);
@@ -70,6 +73,7 @@ fn main() {
             let mut rng = Rng::new(seed ^ 0x5EED_0000 ^ prop.bytes().fold(0u64, |a, b| a.wrapping_mul(131).wrapping_add(b as u64)));
             let mut rep = mon::Report::default();
             match prop {
+                "C03" => mon_c03::run(&mut rng, n, &mut rep),
                 "C15" => mon_c15::run(&mut rng, n, &mut rep),
                 "C17" => mon_c17::run(&mut rng, n, &mut rep),
                 "C18" => mon_c18::run(&mut rng, n, &mut rep),
